@@ -21,7 +21,7 @@ import (
 func TestC04_Isolation(t *testing.T) {
 	ev := evid.For("C04", "Isolation")
 	rapid.Check(t, func(rt *rapid.T) {
-		reorgProperty(rt, ev, machineOpts{MaxDecls: 4, Kinds: []string{"log", "tx"}, MaxBatch: 6, MaxConc: 3, InitBlocks: [2]int{3, 8},
+		reorgProperty(rt, ev, machineOpts{MaxDecls: 4, Kinds: []string{"log", "tx", "log", "tx", "trace"}, MaxBatch: 6, MaxConc: 3, InitBlocks: [2]int{3, 8},
 			ShareTable: true, TwoSources: true, SameEvent: true, Filters: true}, "C04")
 	})
 }
